@@ -49,7 +49,7 @@ def st_entries(draw, pool_size, max_chains=4, max_entries=8, lp_ties=None):
                 dict(
                     tree=draw(st.integers(0, pool_size - 1)),
                     rep=draw(gen.st_repr()),
-                    lp=float(draw(st.sampled_from([-10.0, -12.5, -10.0, -3.25])) if lp_ties else draw(st.floats(-60.0, -1.0, allow_nan=False))),
+                    lp=float(draw(st.sampled_from([-10.0, -12.5, -10.0, -3.25, -10.0001, -10.0004, -9.9997])) if lp_ties else draw(st.floats(-60.0, -1.0, allow_nan=False))),
                     alpha=draw(st.sampled_from([1.0, 0.5, 2.0])),
                 )
             )
